@@ -8,7 +8,7 @@ HttpRequestParserPy (server side), HttpPayloadParser, DeflateBuffer, compression
 by hand (one `send(None)` = one non-blocking attempt), so no event loop runs.
 Model: lean/AioModel/C09.lean; theorems: lean/AioProps/C09.lean.
 """
-import asyncio, gzip, json, sys, zlib
+import asyncio, gzip, json, os, sys, zlib
 from .common.codec import hx, unhx
 
 PROPERTY = "C09"
@@ -900,7 +900,7 @@ def coding_value(case):
     v = case.get("ce_variant", "lower")
     if he is None:
         return None
-    return {"lower": he, "upper": he.upper(), "title": he.title()}[v]
+    return {"lower": he, "upper": he.upper(), "title": he.title(), "ows": " \t" + he + " \t"}[v]
 
 
 def head_bytes(case, wire_len):
@@ -1251,7 +1251,9 @@ def oracle(ctx, case, info):
                           f"payload exception {info['exc_pending']} was set while the reader was parked on a waiter and the waiter "
                           f"was never failed: the consumer stays parked forever")
     # --- progress
-    elif wire_ok and ref[0] == "ok" and info["wire_left"] == 0 or (wire_ok and ref[0] == "ok" and final[0] == "stuck"):
+    elif wire_ok and ref[0] == "ok" and (info["wire_left"] == 0 or final[0] == "stuck" or
+                                         (final[0] == "err" and not info["closed"])):
+        # (an error out of a read on a valid body is wrong at any point of the delivery, not only once everything arrived)
         if final[0] == "stuck":
             fr = {"L": "length", "C": "chunked", "E": "until-eof"}[case["framing"]]
             if info["closed"]:
@@ -1282,6 +1284,13 @@ def oracle(ctx, case, info):
                               f"closed.') after {len(delivered)} bytes")
             elif final[1] == "E_TOO_LARGE":
                 pass
+            elif final[1] == "E_CONTENT_ENCODING" and count_members(enc, body) > 1024:
+                # compression_utils.MAX_DECOMPRESS_MEMBERS caps the members decoded in ONE decompress call, so whether a
+                # valid body of more than 1024 small members is accepted depends on how it was cut into reads
+                ctx.violation("C09/valid-body-rejected/more-than-1024-members-in-one-read", c,
+                              f"valid {enc} body of {count_members(enc, body)} concatenated members rejected with ContentEncodingError "
+                              f"(TooManyMembersError: the 1024-member cap is per decompress call; the same body is accepted when "
+                              f"it arrives in smaller reads)")
             elif final[1] == "E_LINE_TOO_LONG" and case.get("pop") == ["PL"] and \
                     len((ref[1][len(delivered):].split(b"\n", 1)[0])) + 1 > info["high"]:
                 pass    # readline() on a body whose next line is longer than max_size (= high water): LineTooLong is the contract
@@ -1337,6 +1346,36 @@ def oracle(ctx, case, info):
             ctx.violation("C09/client-max-size/rejected-within-limit", c, f"413 for a {len(ref[1])}-byte body, client_max_size {cms}")
         if info["req"][0] == "ok" and ref[0] == "ok" and len(ref[1]) > cms:
             ctx.violation("C09/client-max-size/accepted-over-limit", c, f"{len(ref[1])}-byte body accepted, client_max_size {cms}")
+
+
+def count_members(enc, body):
+    """number of concatenated members / frames of a valid gzip, zlib, raw-deflate or zstd body (0 if not applicable)"""
+    try:
+        if enc in ("gzip", "deflate", "rawdeflate"):
+            wbits = 31 if enc == "gzip" else (15 if (body and body[0] & 0xF == 8) else -15)
+            n, data = 0, body
+            while data:
+                d = zlib.decompressobj(wbits)
+                d.decompress(data)
+                if not d.eof:
+                    return n
+                n += 1
+                data = d.unused_data
+            return n
+        if enc == "zstd":
+            z = _zstd()
+            n, data = 0, body
+            while data:
+                d = z.ZstdDecompressor()
+                d.decompress(data)
+                if not d.eof:
+                    return n
+                n += 1
+                data = d.unused_data
+            return n
+    except Exception:
+        pass
+    return 0
 
 
 def zstd_library_accepts_bytewise(body):
@@ -1483,6 +1522,8 @@ def finding_cases():
                                     shape="random", ce_variant="upper")))
     # readline() parks after the parser failed during its own re-entrant refill (found by the thorough tier, kept verbatim)
     out.append(("readline-parks-after-exception", json.loads('{"pop": ["PL"], "ce_variant": "lower", "side": "server", "enc": "deflate", "limit": 5, "framing": "C", "body": "7801e3e5e2e54a4fcccd050005", "wire_segs": ["3030330d0a7801e30d0a313b613d620d0ae50d0a310d0ae20d0a330d0ae54a4f0d0a320d0acccd0d0a310d0a050d0a310d0a000d0a310d0a050d0a300d0a0d0a"], "merge_head": true, "ops": [["D"], ["D"], ["D"], ["D"], ["PL"], ["D"], ["D"], ["D"], ["PL"], ["D"], ["D"], ["PL"], ["PL"], ["D"]], "shape": "text+trunc", "cms": 0, "post": false, "mode": "parked", "close_after_wire": false, "close_early": false}')))
+    many = b"".join(compress("gzip", b"a") for _ in range(1025))
+    out.append(("too-many-members", dict(trunc, body=hx(many), wire_segs=[hx(many)], shape="text+multi")))
     if "zstd" in available_encodings():
         # frame 1 announces 1 content byte but its last (raw) block is empty; frame 2 is valid ("5")
         zb = bytes.fromhex("28b52ffd2001010000" + "28b52ffd200109000035")
@@ -1517,7 +1558,7 @@ def probe_cases():
     # (c) content-coding spelling: every coding in upper and title case, valid bodies (on the code before the repair these
     #     all fail with the one known signature K11); once the parser lower-cases the value, a truncated `DEFLATE` body
     #     must also get the deflate eof check and a raw-deflate `Deflate` body the first-byte sniff
-    lowered = all(v.islower() for v in probe_content_coding_lowercased().values())
+    lowered = all(v is not None and v.islower() for v in probe_content_coding_lowercased().values())
     for enc in [e for e in ("gzip", "deflate", "rawdeflate", "br", "zstd") if e in available_encodings()]:
         body = compress(enc, text)
         cwire = b"%x\r\n" % len(body) + body + b"\r\n0\r\n\r\n"
@@ -1614,6 +1655,30 @@ def probe_cases():
                 out.append(dict(base, side="client", enc=enc, limit=lim, framing="E", body=hx(body), wire_segs=[hx(x) for x in segs2],
                                 ops=[["D"]] * (len(segs2) - 1) + [["A"], ["D"], ["A"]], mode="lazy", close_early=True,
                                 close_after_wire=True, shape="bomb+probe-backpressure"))
+    # (h) a read that is cancelled while parked in _wait() (timeout) must leave no waiter behind: the next read parks / reads
+    #     normally.  (A blocked R/A attempt of this harness is exactly that: coro.close() = the cancellation path.)
+    for enc in ("identity", "gzip"):
+        body = compress(enc, b"first-second-third")
+        k3 = -(-len(body) // 3)
+        segs = [body[i:i + k3] for i in range(0, len(body), k3)]
+        for side in ("client", "server"):
+            out.append(dict(base, side=side, enc=enc, limit=1024, framing="L", body=hx(body), wire_segs=[hx(x) for x in segs],
+                            ops=[["A"], ["R", 5], ["A"], ["D"], ["R", 4], ["A"], ["R", 100], ["D"], ["A"], ["A"], ["D"]],
+                            shape="text+probe-cancelled-read"))
+    # (i) many small members: exactly the per-call cap (1024) in one read, and one more than the cap split over two reads
+    for enc in ("gzip", "deflate", "rawdeflate"):
+        m1024 = b"".join(compress(enc, b"a") for _ in range(1024))
+        m1025 = m1024 + compress(enc, b"b")
+        out.append(dict(base, side="client", enc=enc, limit=65536, framing="L", body=hx(m1024), wire_segs=[hx(m1024)],
+                        shape="text+multi+probe-members"))
+        out.append(dict(base, side="server", enc=enc, limit=65536, framing="L", body=hx(m1025),
+                        wire_segs=[hx(m1025[: len(m1025) // 2]), hx(m1025[len(m1025) // 2:])], shape="text+multi+probe-members"))
+    # (j) header shape: optional whitespace around the coding
+    for enc in [e for e in ("gzip", "rawdeflate", "br", "zstd") if e in available_encodings()]:
+        body = compress(enc, text)
+        for side in ("client", "server"):
+            out.append(dict(base, side=side, enc=enc, limit=1024, framing="L", body=hx(body), wire_segs=[hx(body)],
+                            shape="text+probe-coding-ows", ce_variant="ows"))
     # (b) concatenated members whose decoded sizes make the output budget of one decode step (max(limit, low_water)) run out
     #     exactly at a member boundary: 1024/512/2048 with limit 1024 (whole and 97-byte segments), 1025 x 3 with 97-byte segments
     encs = [e for e in ("deflate", "rawdeflate", "gzip", "zstd") if e in available_encodings()]
@@ -1833,6 +1898,92 @@ def oracle_server_close(ctx, case, box):
                       f"truncated {case['framing']}/{case['enc']} request body read to a clean end by {case['how']}")
 
 
+# ------------------------------------------------------------------------------------ several bodies on one connection
+def run_sequence(side, limit, msgs, seglen, lazy):
+    """keep-alive: the same protocol / parser / transport carries several message bodies one after the other.  Each is
+    delivered in `seglen`-byte segments while the transport is not paused and read with readany() (lazy: only when
+    nothing can be delivered).  -> list of (delivered bytes | None, why) per message"""
+    loop = asyncio.new_event_loop()
+    try:
+        case = {"side": side, "limit": limit}
+        p = Pipeline(loop, case)
+        results = []
+        for idx, (enc, framing, data) in enumerate(msgs):
+            body = compress(enc, data)
+            wire = body if framing == "L" else chunk_encode(__import__("random").Random(idx), body, "mixed")
+            head = head_bytes({"side": side, "enc": enc, "framing": framing, "ce_variant": "lower"}, len(wire))
+            queue = [head] + [wire[i:i + seglen] for i in range(0, len(wire), seglen)]
+            got, why = bytearray(), None
+            payload = None
+            for _ in range(20000):
+                store = p.proto._buffer if p.client else p.msgs
+                if payload is None and len(store) > idx:
+                    payload = store[idx][1]
+                progressed = False
+                if queue and not p.tr.paused:
+                    p.proto.data_received(queue.pop(0)); progressed = True
+                    if lazy:
+                        continue
+                if payload is not None and type(payload).__name__ == "StreamReader":
+                    p.payload = payload
+                    out = p.readany()
+                    if out.startswith("d="):
+                        d = unhx(out[2:])
+                        if not d:
+                            break
+                        got += d; progressed = True
+                    elif out.startswith("e="):
+                        why = out[2:]; break
+                elif payload is not None and not queue:
+                    break           # EMPTY_PAYLOAD
+                if not progressed:
+                    why = f"stuck (queue={len(queue)}, transport paused={p.tr.paused})"; break
+            else:
+                why = "op budget"
+            results.append((bytes(got), why))
+            if why:
+                break
+        return results
+    finally:
+        loop.close()
+
+
+def check_sequences(ctx):
+    a, b = b"A" * 5000 + b"tail-one", bytes(range(256)) * 9
+    encs = [e for e in ("identity", "gzip", "deflate", "zstd", "br") if e in available_encodings()]
+    n = 0
+    for side in ("client", "server"):
+        for limit in (16, 1024):
+            for e1 in encs:
+                for e2 in ("identity", "gzip"):
+                    for f1, f2 in (("L", "C"), ("C", "L")):
+                        for seglen, lazy in ((7, False), (4096, True)):
+                            msgs = [(e1, f1, a), (e2, f2, b), (e1, f2, a[:100])]
+                            case = {"kind": "sequence", "side": side, "limit": limit, "msgs": [[m[0], m[1], hx(m[2])] for m in msgs],
+                                    "seglen": seglen, "lazy": lazy}
+                            n += 1
+                            oracle_sequence(ctx, case, run_sequence(side, limit, msgs, seglen, lazy))
+                            ctx.case(("sequence", case), sample=None)
+    ctx.hit(*["class:keepalive-sequence"] * n)
+
+
+def oracle_sequence(ctx, case, results):
+    msgs = case["msgs"]
+    for i, (got, why) in enumerate(results):
+        want = unhx(msgs[i][2])
+        if why:
+            ctx.violation("C09/sequence/body-%d-not-delivered" % (i + 1), case,
+                          f"message {i + 1} ({msgs[i][0]}/{msgs[i][1]}) on a connection that already carried {i} bodies: {why} after "
+                          f"{len(got)} of {len(want)} bytes")
+            return
+        if got != want:
+            ctx.violation("C09/sequence/body-%d-differs" % (i + 1), case,
+                          f"message {i + 1} ({msgs[i][0]}/{msgs[i][1]}): {len(got)} bytes delivered, reference {len(want)}")
+            return
+    if len(results) < len(msgs):
+        ctx.violation("C09/sequence/later-message-missing", case, f"only {len(results)} of {len(msgs)} messages came out")
+
+
 # ------------------------------------------------------------------------------------ check
 def run_and_compare(ctx, cases, label):
     results = []
@@ -1879,7 +2030,10 @@ def check(ctx):
         remove_patches()
         vloop_scenarios(ctx)
         check_server_close(ctx)
+        check_sequences(ctx)
         n = 1500 if ctx.quick else 16000
+        if os.environ.get("VERIF_C09_PROBES_ONLY"):
+            n = 0      # audit switch: which mechanisms are caught by the deterministic cases alone
         cases = []
         for _ in range(n):
             cases.append(gen_case(rng, ctx.quick, encs))
@@ -1925,6 +2079,10 @@ def check_toy_codec(ctx, rng):
 
 
 def replay(ctx, case):
+    if case.get("kind") == "sequence":
+        msgs = [(m[0], m[1], unhx(m[2])) for m in case["msgs"]]
+        oracle_sequence(ctx, case, run_sequence(case["side"], case["limit"], msgs, case["seglen"], case["lazy"]))
+        return
     if case.get("kind") == "server_close":
         box, _, _ = run_server_close(case)
         oracle_server_close(ctx, case, box)
